@@ -59,6 +59,9 @@ func BufLen(def int) int {
 func OnceDo(o *sync.Once, label string, f func()) {
 	s := cur
 	if s == nil {
+		if g := OnYield; g != nil {
+			g(label)
+		}
 		o.Do(f)
 
 		return
@@ -110,10 +113,19 @@ func (s *Sched) yield(label string, blocked bool) {
 	<-s.resume[id]
 }
 
+// OnYield, when set and no scheduler is installed, is called at every synchronisation point
+// (used by the crash family to kill the process at the n-th one).
+var OnYield func(label string)
+
 // Yield parks the calling thread before the synchronisation operation `label`.
 func Yield(label string) {
 	if s := cur; s != nil {
 		s.yield(label, false)
+
+		return
+	}
+	if f := OnYield; f != nil {
+		f(label)
 	}
 }
 
@@ -124,6 +136,9 @@ func Lock(m interface {
 }, label string) {
 	s := cur
 	if s == nil {
+		if f := OnYield; f != nil {
+			f(label)
+		}
 		m.Lock()
 
 		return
@@ -140,6 +155,9 @@ func RLock(m interface {
 }, label string) {
 	s := cur
 	if s == nil {
+		if f := OnYield; f != nil {
+			f(label)
+		}
 		m.RLock()
 
 		return
@@ -166,6 +184,10 @@ func ViewExit() {
 func CloseWait(label string) {
 	s := cur
 	if s == nil {
+		if f := OnYield; f != nil {
+			f(label)
+		}
+
 		return
 	}
 	s.yield(label, false)
